@@ -22,20 +22,41 @@ info('C02',
 
 
 def producers(ctx):
-    """(method unit, code, call) for every ``_t_child(x, <const>, ...)``"""
+    """(method unit, code, call) for every ``_t_child(x, <const>, ...)``; a
+    producer that goes through one helper ``h(self, <const>, ...)`` whose
+    every return is ``_t_child(<p0>, <p1>, ...)`` is followed; a helper with a
+    return that records nothing is reported by C02.1"""
     p = ctx.program
     m, w = model(ctx)
     out = []
+    helpers = {}
     for u in p.package_units():
         for c in calls_in(u):
             if callee_qual(p, u, c) == 'core._t_child' and len(c.args) > w.op_index:
                 a = c.args[w.op_index]
                 if isinstance(a, ast.Constant) and isinstance(a.value, str):
                     out.append((u, a.value, c))
-                elif u.qualname != 'core.Path.__init__' or not isinstance(a, ast.Subscript):
-                    # a non-constant code other than the Path splice (which
-                    # copies already-recorded codes) cannot be enumerated
+                elif u.qualname == 'core.Path.__init__' and isinstance(a, ast.Subscript):
+                    continue      # the Path splice copies already-recorded codes
+                elif isinstance(a, ast.Name) and a.id in u.params:
+                    helpers.setdefault(u, []).append((c, u.params.index(a.id)))
+                else:
                     raise AnalysisError('producer with non-constant op code in %s: %s' % (u.qualname, src(c)))
+    ctx.shared['c02_helper_faults'] = []
+    for h, sites in helpers.items():
+        rets = [r for r in h.own_nodes() if isinstance(r, ast.Return)]
+        bad = [r for r in rets if not (isinstance(r.value, ast.Call) and callee_qual(p, h, r.value) == 'core._t_child')]
+        for r in bad:
+            ctx.shared['c02_helper_faults'].append((h, r))
+        idx = sites[0][1]
+        for u in p.package_units():
+            for c in calls_in(u):
+                if callee_qual(p, u, c) == h.qualname and len(c.args) > idx:
+                    a = c.args[idx]
+                    if isinstance(a, ast.Constant) and isinstance(a.value, str):
+                        out.append((u, a.value, c))
+                    else:
+                        raise AnalysisError('producer with non-constant op code via %s in %s' % (h.qualname, u.qualname))
     return out
 
 
@@ -54,11 +75,23 @@ def exhaustiveness(ctx):
         ctx.ob(ok, u, 'op code %r recorded by %s has an interpreter branch' % (code, u.name),
                '' if ok else 'no test of the dispatch chain in _t_eval matches %r and the chain has no final else: '
                'the recorded operation is silently skipped' % code, node=c)
+    for h, r in ctx.shared.get('c02_helper_faults', []):
+        ctx.ob(False, h, 'every path of a recording helper records a step: %s' % norm(r),
+               'this return hands back an expression without appending the operation: the operation is silently dropped', node=r)
+    # every operator method of T returns the recorded child
+    tt = ctx.cls('core.TType')
+    for name, mu in sorted(tt.methods.items()):
+        if name in ('__repr__', '__getstate__', '__setstate__', '__stars__'):
+            continue
+        rets = [r for r in mu.own_nodes() if isinstance(r, ast.Return)]
+        recs = [r for r in rets if isinstance(r.value, ast.Call) and is_name(r.value.args[0] if r.value.args else None, mu.params[0])]
+        ctx.ob(len(rets) == 1 and len(recs) == 1, mu, 'T.%s returns exactly the child it records' % name,
+               '' if len(rets) == 1 and len(recs) == 1 else 'returns: %s' % [norm(r) for r in rets])
     # branches that are never produced are harmless; report as note
     extra = handled - set(codes)
     if extra:
         ctx.note('interpreter branches without a producer: %s' % sorted(extra))
-    ctx.floor(17, '(17 distinct op codes)')
+    ctx.floor(35, '(17 distinct op codes + 18 operator methods)')
 
 
 @rule('C02.2')
